@@ -329,20 +329,20 @@ inline bool same_bits(const Out& a, const Out& b, std::string& why)
 struct Input
 {
     Index rows = 0, cols = 0;
-    CMatL A, B;       // full (mirrored) matrices
-    Mask stA, stB;    // stored-entry masks (dense wrappers ignore them)
+    CMatL A, B, C;        // full (mirrored) matrices (C: the matrix handed to a second wrapper of a composite operator)
+    Mask stA, stB, stC;   // stored-entry masks (dense wrappers ignore them)
     CVecL x, x2;      // operand vectors
     CMatL X;          // operand of operator*
     cld sigma = 0, sigma0 = 0;
     bool reshift = false;   // set_shift(sigma0) first, then set_shift(sigma)
-    int formA = 0, formB = 0;
+    int formA = 0, formB = 0, formC = 0;
     Index ei = 0, ej = 0;   // element queried through operator()
 };
 // The matrices actually handed to the wrapper in one run (a triangle variant of Input::A / B)
 struct Eff
 {
-    CMatL A, B;
-    Mask stA, stB;
+    CMatL A, B, C;
+    Mask stA, stB, stC;
 };
 typedef Out (*RunFn)(const Input&, const Eff&);
 
